@@ -26,6 +26,16 @@ def is_ascii(s: str) -> bool:
     return len(s) == len(s.encode())
 
 
+def int_repr(n) -> str:
+    """repr() of an int.  From Python 3.11 the interpreter refuses to turn an
+    int of more than sys.get_int_max_str_digits() (4300) digits into decimal
+    text; such a constant is shown in hexadecimal instead."""
+    try:
+        return int.__repr__(n)
+    except ValueError:
+        return hex(n)
+
+
 class LongTypeForPython3(int):
     """
     Define a Python3 long integer type which exists in
@@ -40,7 +50,7 @@ class LongTypeForPython3(int):
         Replacement repr() and str() for Python3.
         This ensures we get the "L" suffix on long types.
         """
-        return f"""{self.value}L"""
+        return int_repr(int(self.value)) + "L"
 
 
 class UnicodeForPython3(str):
